@@ -422,7 +422,11 @@ func (c *ComputedStyle) cascadeValue(key pr.PropKey) (value pr.DeclaredValue, sa
 	if rawTokens, isPending := value.(pr.RawTokens); isPending { // Property with pending values, validate them.
 		var solvedTokens []Token
 		for _, token := range rawTokens {
-			tokens := resolveVar(c.variables, token)
+			tokens, valid := resolveVar(c.variables, token)
+			if !valid { // invalid at computed-value time
+				solvedTokens = nil
+				break
+			}
 			if tokens == nil {
 				solvedTokens = append(solvedTokens, token)
 			} else {
@@ -1503,10 +1507,22 @@ func (styleFor StyleFor) SetPageComputedStylesT(pageType utils.PageElement, html
 	}
 }
 
-// Return tokens with resolved CSS variables.
-func resolveVar(computed map[string]pr.RawTokens, token Token) []Token {
+// Return tokens with resolved CSS variables, or nil if `token` contains no var().
+// `valid` is false when a reference can not be substituted (undefined or cyclic
+// custom property and no fallback): the declaration is then invalid at computed-value time.
+func resolveVar(computed map[string]pr.RawTokens, token Token) (out []Token, valid bool) {
+	return (&varResolver{computed: computed, cyclic: map[string]bool{}}).resolve(token)
+}
+
+type varResolver struct {
+	computed map[string]pr.RawTokens
+	stack    []string        // custom properties being substituted
+	cyclic   map[string]bool // custom properties found on a cycle: invalid, whatever their fallbacks
+}
+
+func (vr *varResolver) resolve(token Token) ([]Token, bool) {
 	if !validation.HasVar(token) {
-		return nil
+		return nil, true
 	}
 
 	fn := token.(pa.FunctionBlock)
@@ -1514,34 +1530,74 @@ func resolveVar(computed map[string]pr.RawTokens, token Token) []Token {
 		arguments := []Token{}
 		for _, argument := range fn.Arguments {
 			if fna, isFunction := argument.(pa.FunctionBlock); isFunction && utils.AsciiLower(fna.Name) == "var" {
-				arguments = append(arguments, resolveVar(computed, argument)...)
+				resolved, valid := vr.resolve(argument)
+				if !valid {
+					return nil, false
+				}
+				arguments = append(arguments, resolved...)
 			} else {
 				arguments = append(arguments, argument)
 			}
 		}
 		token = pa.NewFunctionBlock(token.Pos(), fn.Name, arguments)
-		if resolved := resolveVar(computed, token); len(resolved) != 0 {
-			return resolved
+		resolved, valid := vr.resolve(token)
+		if !valid {
+			return nil, false
 		}
-		return []Token{token}
+		if len(resolved) != 0 {
+			return resolved, true
+		}
+		return []Token{token}, true
 	}
 
 	_, args := pa.ParseFunction(token)
+	if len(args) == 0 {
+		return nil, false
+	}
 	// first arg is name, next args are default value
 	varNameToken, default_ := args[0], args[1:]
-	variableName := varNameToken.(pa.Ident).Value
-
-	source := default_
-	if l := computed[variableName]; len(l) != 0 {
-		source = l
+	nameIdent, ok := varNameToken.(pa.Ident)
+	if !ok {
+		return nil, false
 	}
+	variableName := nameIdent.Value
+
+	for i, name := range vr.stack {
+		if name == variableName { // cycle: every property from here to the top of the stack is invalid
+			for _, cyclic := range vr.stack[i:] {
+				vr.cyclic[cyclic] = true
+			}
+			return nil, false
+		}
+	}
+
+	// use the value of the custom property, unless it is undefined, part of a cycle or itself invalid
+	if l := vr.computed[variableName]; len(l) != 0 && !vr.cyclic[variableName] {
+		vr.stack = append(vr.stack, variableName)
+		value, valid := vr.resolveList(l)
+		vr.stack = vr.stack[:len(vr.stack)-1]
+		if valid && !vr.cyclic[variableName] {
+			return value, true
+		}
+	}
+	if len(default_) == 0 {
+		return nil, false
+	}
+	return vr.resolveList(default_)
+}
+
+func (vr *varResolver) resolveList(source []Token) ([]Token, bool) {
 	computedValue := []Token{}
 	for _, value := range source {
-		if resolved := resolveVar(computed, value); resolved != nil {
+		resolved, valid := vr.resolve(value)
+		if !valid {
+			return nil, false
+		}
+		if resolved != nil {
 			computedValue = append(computedValue, resolved...)
 		} else {
 			computedValue = append(computedValue, value)
 		}
 	}
-	return computedValue
+	return computedValue, true
 }
